@@ -388,6 +388,13 @@ func init() {
 			t.Style(0, min(3, tlen(t)), map[string]string{"b": fmt.Sprint(v)})
 		}
 	})
+	// the same attribute value every time (two writers of EQUAL values next to
+	// a writer of a different one: last-writer-wins must not depend on values)
+	reg("t.styFx", func(r *json.Object, _ *document.Presence, v int) {
+		if t := txt(r); t != nil && tlen(t) > 0 {
+			t.Style(0, min(3, tlen(t)), map[string]string{"b": "same"})
+		}
+	})
 	reg("t.styB", func(r *json.Object, _ *document.Presence, v int) {
 		if t := txt(r); t != nil && tlen(t) > 0 {
 			n := tlen(t)
